@@ -716,7 +716,7 @@ pub fn unmanaged_scenarios(tier: Tier, with_close: bool) -> Vec<Scenario> {
         v.push(uconc("add-vs-get/new1", "add() racing with get(): object pushed before its permit is added", p, f, UBuild::New(1), vec![vec![a(), UOp::TryAdd], vec![g(), UOp::Release]]));
         v.push(uconc("return-vs-get/vec1", "an object is returned while another caller waits for it", p, f, UBuild::FromVec(1), vec![vec![g(), UOp::Release], vec![g(), UOp::Release]]));
         v.push(uconc("take-vs-take/vec2", "two objects taken out of a full pool on two threads at once, each then put back with try_add: both slots must be free again", p, f, UBuild::FromVec(2), vec![vec![UOp::TryGet, UOp::Take, UOp::TryAdd], vec![UOp::TryGet, UOp::Take, UOp::TryAdd]]));
-        v.push(uconc("remove-vs-remove/vec2", "try_remove on two threads at once, then the pool is refilled", p, f, UBuild::FromVec(2), vec![vec![UOp::TryRemove, UOp::TryAdd], vec![UOp::TryRemove, UOp::TryAdd]]));
+        v.push(uconc("remove-vs-remove/vec2", "try_remove on two threads at once, then the pool is refilled", p, f, UBuild::FromVec(2), vec![vec![UOp::TryRemove, UOp::TryAdd], vec![UOp::TimeoutRemove0, UOp::TryAdd]]));
         v.push(uconc("take-vs-add-waiting/vec1", "take() frees a slot while add() waits for one", p, f, UBuild::FromVec(1), vec![vec![g(), UOp::Take], vec![a(), UOp::TryAdd]]));
         v.push(uconc("try_add-at-limit/cfg1", "try_add at the limit racing with remove", p, f, UBuild::FromConfig(1), vec![vec![UOp::TryAdd, UOp::TryAdd], vec![UOp::Remove, UOp::TryRemove]]));
         v.push(uconc("remove-frees-add/new1", "remove() makes room for a waiting add()", p, f, UBuild::New(1), vec![vec![a(), a()], vec![UOp::Remove, UOp::Status]]));
@@ -734,7 +734,7 @@ pub fn unmanaged_scenarios(tier: Tier, with_close: bool) -> Vec<Scenario> {
         v.push(uconc("close-vs-waiting-add/vec1", "close() while add() waits for a slot and a getter holds the object", p, f, UBuild::FromVec(1), vec![vec![g(), UOp::Release], vec![a()], vec![UOp::Close]]));
         v.push(uconc("close-vs-take-return/vec2", "close() vs take and return", p, f, UBuild::FromVec(2), vec![vec![UOp::TryGet, UOp::Take, UOp::TryGet, UOp::Release], vec![UOp::Close, UOp::Status]]));
         v.push(uconc("close-twice/vec2", "two close() calls on two threads over a pool holding objects, then try_get / try_add: neither call may return before the pool is empty", p, f, UBuild::FromVec(2), vec![vec![UOp::Close, UOp::TryGet], vec![UOp::Close, UOp::TryAdd]]));
-        v.push(uconc("close-vs-remove/vec1", "close() vs remove()/try_remove()/timeout_get(0)", p, f, UBuild::FromVec(1), vec![vec![UOp::TryRemove, UOp::TimeoutGet0], vec![UOp::Close, UOp::Close]]));
+        v.push(uconc("close-vs-remove/vec1", "close() vs remove()/try_remove()/timeout_get(0)", p, f, UBuild::FromVec(1), vec![vec![UOp::TryRemove, UOp::TimeoutGet0, UOp::TimeoutRemove0], vec![UOp::Close, UOp::Close]]));
         for (name, build) in [("new1", UBuild::New(1)), ("vec2", UBuild::FromVec(2)), ("new0", UBuild::New(0))] {
             v.push(useq(&format!("close-histories/{}", name), "close() at every position of every history of unmanaged pool operations", if b.thorough { 2 } else { 1 }, USeqScenario { build, depth: if b.thorough { 8 } else { 6 }, max_tasks: 2, close: true, cancel: true, bfs: false }));
         }
